@@ -374,6 +374,35 @@ func runC12(c *core.Ctx) {
 			c.Distinct("kept", name)
 		}
 	}
+	// ---- a variable may be called what it likes: words that mean something elsewhere in Liquid (filter names, loop
+	// fields, tag names, Shopify's empty/blank/tablerowloop) are ordinary names in this engine's expression language,
+	// whose reserved words are only true, false, nil, and, or, contains and in
+	words := []string{"empty", "blank", "tablerowloop", "first", "last", "size", "index", "length", "range", "cycle", "continue", "else", "endfor", "when", "comment", "raw", "include", "assign", "capture",
+		"with", "tablerow", "present", "null", "True", "NIL", "not", "default", "_u", "a1", "forloop2", "parentloop", "rindex", "col", "row", "limit", "offset", "cols", "reversed", "item", "e"}
+	for k, w := range words {
+		if !c.Mine(k) || !c.Begin("word-names:"+w) {
+			continue
+		}
+		what := "a variable set by assign, capture or a loop is visible afterwards under its name and holds exactly what it was given - whatever ordinary word the name is"
+		src := strings.ReplaceAll("{% assign NAME = 'A' %}[{{ NAME }}]{% for i in (1..2) %}{{ NAME }}{% endfor %}{% tablerow i in (1..2) %}{{ NAME }}{% endtablerow %}[{{ NAME }}]{% if NAME == 'A' %}eq{% endif %}"+
+			"{% capture NAME %}C{{ NAME }}{% endcapture %}[{{ NAME }}]{{ NAME | append: '!' }}{% assign other = NAME %}{{ other }}{% if NAME %}T{% endif %}{{ NAME.size }}", "NAME", w)
+		res := core.Run(e, src, map[string]any{})
+		c.Eval(1)
+		if want := "[A]AA<tr><td>A</td><td>A</td></tr>[A]eq[CA]CA!CAT"; !res.OK() || !strings.HasPrefix(ref.NormTable(res.Out), want) {
+			c.Violate("word-names|assign-capture|"+resClass(res), what, map[string]any{"name": w, "source": src, "expected_prefix": want, "observed": res.Brief()})
+		}
+		// as a loop variable (not the words that are loop modifiers, which would be read as such in a loop header), over a caller's binding of that name
+		if w != "limit" && w != "offset" && w != "cols" && w != "reversed" {
+			src = strings.ReplaceAll("[{{ NAME }}]{% for NAME in (1..2) %}{{ NAME }}{% endfor %}[{{ NAME }}]{% tablerow NAME in (3..3) %}{{ NAME }}{% endtablerow %}[{{ NAME }}]{% for q in (1..1) %}{% assign NAME = 'in-loop' %}{% endfor %}[{{ NAME }}]", "NAME", w)
+			res = core.Run(e, src, map[string]any{w: "B"})
+			c.Eval(1)
+			if want := "[B]12[B]<tr><td>3</td></tr>[B][in-loop]"; !res.OK() || ref.NormTable(res.Out) != want {
+				c.Violate("word-names|loop-variable|"+resClass(res), what, map[string]any{"name": w, "source": src, "bindings": w + "=B", "expected": want, "observed": res.Brief()})
+			}
+		}
+		c.Obs("word_name_cases", 1)
+		c.Distinct("word-names", w)
+	}
 	// ---- capture equivalence over the general generator ---------------------------------
 	e2 := liquid.NewEngine()
 	n2 := c.Pick(30000, 600000)
